@@ -211,7 +211,7 @@ void verif::verif_case(Rng & rng, long idx, const std::string & tier) {
     unsigned h = (unsigned)rng.range(1, 3);
     if (A * O >= 9 && h == 3) h = 2;
     if (S >= 4 && A * O >= 6 && h == 3) h = 2;
-    if (thorough && rng.coin(1, 10) && A * O <= 4) h = 4;
+    if (thorough && rng.coin(1, 10) && A * O <= 4) h = (S <= 2 && rng.coin()) ? 5 : 4;
     PomdpTables pt = randomPomdp(rng, S, A, O, 3);
     bool dyadic = true;
     if (style == 4) {   // action a pays in state a: several vectors survive, different actions optimal in different regions
